@@ -16,7 +16,9 @@ LEVEL_TEXT = ('Seeded differential runs of the three real optimizer wrappers aga
               'comparison of params, every opt_state leaf and step after every step) with snapshot contracts on the old '
               'functional state and on everything outside `wrt`; plus an exhaustive enumeration of all compositions of '
               'n <= 6 stream items into update() batches for Average / Accuracy / Welford / MultiMetric against float64 '
-              'NumPy statistics, and 1e5-example streams split into few large update() calls (count products beyond 2**31). The optimizer space is sampled, the batching space is complete for n <= 6.')
+              'NumPy statistics, and 1e5-example streams split into few large update() calls (count products beyond 2**31). The optimizer space is sampled, the batching space is complete for n <= 6.'
+              ' Further streams: half-precision parameters with wider updates, 1e5-example batches, half-precision and'
+              ' large-int value streams.')
 LEVEL_NOTE = ('Trusts optax (update/apply_updates/init), the un-filtered nnx graph traversal (nnx.state(model), '
               'nnx.iter_graph: C03/C14/C16 territory) used to enumerate Variables, the 15-line wrt predicate evaluator and '
               'the NumPy statistics in vf/props/c17.py, and the JAX compat aliases.')
